@@ -5,8 +5,8 @@ import os
 from .common import *
 
 BRIDGE_BUGS_OFF = {"BugGetInfoHardcoded": False, "BugReadAheadToClient": False, "BugDropReplyOnClose": False,
-                   "BugPanicNoChild": False, "BugAbortAfterUpgrade": False, "BugStaleCacheAfterInfo": False, "BugIgnoreServiceHangup": False}
-BRIDGE_INVS = ["Transparent", "PrefixWhenAbandoned", "SwitchesTargets", "UpgradePayloadToService", "StopsWhenServiceEnds", "GoodbyeForwarded", "ExitZero"]
+                   "BugPanicNoChild": False, "BugAbortAfterUpgrade": False, "BugStaleCacheAfterInfo": False, "BugIgnoreServiceHangup": False, "BugDropServiceReadAhead": False}
+BRIDGE_INVS = ["Transparent", "PrefixWhenAbandoned", "SwitchesTargets", "UpgradePayloadToService", "StopsWhenServiceEnds", "GoodbyeForwarded", "GreetingForwarded", "ExitZero"]
 
 
 def check_C18(tier):
